@@ -2,6 +2,7 @@
 //! usage: trh <ops-file>      (prints the event log, one `case <n>` block per case)
 mod world;
 mod mw_bulkhead;
+mod mw_circuit;
 
 use std::io::Write;
 use world::*;
@@ -9,6 +10,7 @@ use world::*;
 fn make(mw: &str, kv: &Kv) -> Option<Box<dyn Mw>> {
     match mw {
         "bulkhead" => Some(Box::new(mw_bulkhead::Adapter::new(kv))),
+        "circuit" => Some(Box::new(mw_circuit::Adapter::new(kv))),
         _ => None,
     }
 }
